@@ -211,6 +211,77 @@ func (x *Exec) callFuncValue(fr *Frame, st *State, cc *ssa.CallCommon, f *Term, 
 	ft := types.Unalias(cc.Value.Type())
 	key := "functype:" + typeName(ft)
 	sig := ft.Underlying().(*types.Signature)
+	// function values created in this unit and stored in memory (closures passed through slices or fields):
+	// dispatch on the identity; any other value falls through to the function type's contract
+	if len(x.funcVals) > 0 && !x.inFuncDispatch {
+		c := x.C
+		base := st.Clone()
+		var outs []*State
+		var results [][]Val
+		others := base.PC
+		known := append([]VFunc{}, x.funcVals...)
+		for i, fv := range known {
+			fn, ok := fv.Fn.(*ssa.Function)
+			if !ok || !types.Identical(fn.Signature.Underlying(), sig) && fn.Signature.Params().Len() != sig.Params().Len() {
+				continue
+			}
+			id := c.Int(int64(funcIDBase + i))
+			arm := base.Clone()
+			arm.PC = c.And(base.PC, c.Eq(f, id))
+			others = c.And(others, c.Ne(f, id))
+			if isFalse(arm.PC) {
+				continue
+			}
+			r := x.callStatic(fr, arm, fn, args, fv.Bindings, fmt.Sprintf("%s/fn%d", site, i), cc)
+			if isFalse(arm.PC) {
+				continue
+			}
+			outs = append(outs, arm)
+			var vs []Val
+			switch sig.Results().Len() {
+			case 0:
+			case 1:
+				vs = []Val{r}
+			default:
+				vs = r.(VStruct).F
+			}
+			results = append(results, vs)
+		}
+		rest := base.Clone()
+		rest.PC = others
+		if !isFalse(rest.PC) {
+			x.inFuncDispatch = true
+			r := x.callFuncValue(fr, rest, cc, f, args, site)
+			x.inFuncDispatch = false
+			if !isFalse(rest.PC) {
+				outs = append(outs, rest)
+				var vs []Val
+				switch sig.Results().Len() {
+				case 0:
+				case 1:
+					vs = []Val{r}
+				default:
+					vs = r.(VStruct).F
+				}
+				results = append(results, vs)
+			}
+		}
+		if len(outs) == 0 {
+			st.PC = c.False()
+			return x.zeroResults(sig)
+		}
+		merged := x.mergeStates(outs)
+		vals := results[len(results)-1]
+		for i := len(results) - 2; i >= 0; i-- {
+			nv := make([]Val, len(vals))
+			for j := range vals {
+				nv[j] = x.iteVal(outs[i].PC, results[i][j], vals[j])
+			}
+			vals = nv
+		}
+		*st = *merged
+		return x.tupleOrSingle(vals, sig)
+	}
 	if sp := x.W.Specs.Funcs[key]; sp != nil {
 		x.oblige(st, "safe:nil", "callfunc", site, "call of nil function value", x.C.Ne(f, x.C.Int(0)))
 		vals := x.applyContract(fr, st, sp, sig, nil, args, nil, site+"/"+sanitize(typeName(ft)))
